@@ -3,7 +3,7 @@
 // (bytes + NUL) so ASan sees any over-read; the result is allocated through a tracking
 // ZixAllocator that hands out exact-size blocks (ASan sees any overrun of the result buffer)
 // and records the request; the result is copied (strlen + memcpy) and freed.
-// output:  t=<hex of result> alloc=<bytes requested>     |  NULL
+// output:  t=<hex of result>     |  NULL      (+ allocation counters only when anomalous)
 #include "vcommon.h"
 
 #include <zix/allocator.h>
@@ -38,6 +38,7 @@ int main(void)
     free(raw);
     if (strlen(in) != len) { // embedded NUL: not a path string
       puts("bad-case");
+      fflush(stdout);
       free(in);
       continue;
     }
@@ -52,14 +53,16 @@ int main(void)
       zix_free(&alloc, res);
       fputs("t=", stdout);
       vputhex(stdout, (const unsigned char*)copy, rl);
-      printf(" alloc=%zu", alloc_bytes);
-      if (n_alloc != 1 || n_free != 1) {
+      // one allocation request, released once; the block must hold the result and its NUL
+      if (n_alloc != 1 || n_free != 1 || alloc_bytes < rl + 1U) {
+        printf(" alloc=%zu", alloc_bytes);
         printf(" nalloc=%zu nfree=%zu", n_alloc, n_free);
       }
       fputc('\n', stdout);
       free(copy);
     }
     free(in);
+    fflush(stdout); // keep the output aligned with the cases if a later case aborts under ASan
   }
   free(line);
   return 0;
